@@ -12,6 +12,10 @@ def sh(cmd, cwd=None, timeout=3600, env=None):
     return p.returncode, p.stdout + p.stderr
 
 
+# evidence level per property: "proof" once its Props module carries real theorems
+LEVELS = {}
+
+
 class BuildError(Exception):
     pass
 
@@ -245,8 +249,10 @@ class Check:
         self.proof_log += log
         return ok
 
-    def finish(self, level="proof", trusted=None, rule="", assumptions=None, technique_note=""):
+    def finish(self, level=None, trusted=None, rule="", assumptions=None, technique_note=""):
         wall = time.time() - self.t0
+        if level is None:
+            level = LEVELS.get(self.pid, "translation_validation")
         # verdict
         replay_paths = []
         os.makedirs(os.path.join(VERIF, "replays"), exist_ok=True)
@@ -287,6 +293,8 @@ class Check:
             "evaluations": self.evaluations, "distinct_nontrivial": len(self.distinct),
             "rule": rule, "samples": self.samples or [{"note": "no correspondence stream in this run"}],
             "traces_validated_against_impl": sum(s["requests"] for s in self.streams),
+            "programs": max(1, self.evaluations),
+            "disagreements_checked": sum(s.get("disagreements", 0) for s in self.streams),
             "streams": self.streams,
             "axioms_by_theorem": self.axioms,
             "notes": self.notes,
